@@ -46,7 +46,7 @@ def check(pid, tier, seed):
 def replay(pid, path):
     import json
     payload = json.load(open(path))
-    if payload.get("kind") in ("trace", "opscan"):
+    if payload.get("kind") in ("trace", "opscan", "bypass"):
         import p_visit_ob
         return p_visit_ob.replay(pid, payload, path)
     return p_kani.replay(pid, path)
